@@ -233,7 +233,7 @@ func addMutation(s *spec.RunSpec, transport string, g spec.SegGeo, p int64, kind
 func init() {
 	register(&propDef{
 		id: "C04", level: "fault_enumeration", quickRuns: 48, thoroughRuns: 1500, wallPerRun: 5 * time.Minute,
-		rule: "For each traffic shape (two multiplexed sessions of one user plus a second user's session, padding on, low-entropy mode varied, TCP or UDP) a fault-free reference pass records the byte geometry of every segment from the tap; then ONE in-path mutation per run is enumerated: every segment x every field class present (nonce, encrypted metadata, metadata tag, middle padding, payload body, payload tag, end padding) x offsets (first/middle/last byte; every byte of short fields and random interior bytes in the thorough tier) x kind (bit flip, byte substitution, 1-byte insertion, 1-byte deletion, truncation) plus whole-segment swap, duplication, removal and splices from another session / another user's connection. The enumerated list is exhaustive for the stated positions of the chosen shapes; random C01/C02-style shapes with one random mutation are added on top. Oracle: TCP - bytes read are a prefix of the PRF stream; UDP - the stream completes intact within the progress bound (a corrupted datagram counts as one loss); never a differing byte; no crash.",
+		rule:        "For each traffic shape (two multiplexed sessions of one user plus a second user's session, padding on, low-entropy mode varied, TCP or UDP) a fault-free reference pass records the byte geometry of every segment from the tap; then ONE in-path mutation per run is enumerated: every segment x every field class present (nonce, encrypted metadata, metadata tag, middle padding, payload body, payload tag, end padding) x offsets (first/middle/last byte; every byte of short fields and random interior bytes in the thorough tier) x kind (bit flip, byte substitution, 1-byte insertion, 1-byte deletion, truncation) plus whole-segment swap, duplication, removal and splices from another session / another user's connection. The enumerated list is exhaustive for the stated positions of the chosen shapes; random C01/C02-style shapes with one random mutation are added on top. Oracle: TCP - bytes read are a prefix of the PRF stream; UDP - the stream completes intact within the progress bound (a corrupted datagram counts as one loss); never a differing byte; no crash.",
 		assumptions: []string{"one seed = one execution, so the geometry of the reference pass is valid up to the mutation point (determinism self-test)", "positions are exhaustive only for the shapes listed in the evidence file"},
 		components:  realComponents,
 		enumerate:   c04Enumerate,
